@@ -34,6 +34,43 @@ def _worker(job):
                     tb=traceback.format_exc()[-3000:])
 
 
+def run_in_subprocesses(jobs, nproc, timeout_ms):
+    """jobs are dealt round-robin into chunks; each chunk runs in its own interpreter (no fork of a z3-laden parent, no
+    multiprocessing primitives that can dead-lock); a chunk that exceeds its wall budget is killed and its unfinished
+    jobs are reported as harness errors"""
+    import tempfile
+    nchunks = min(len(jobs), max(nproc, min(len(jobs), nproc * 3)))
+    chunks = [jobs[i::nchunks] for i in range(nchunks)]
+    pending = list(enumerate(chunks)); running = {}; results = []
+    budget = lambda ch: 120 + len(ch) * max(60.0, timeout_ms / 1000.0 * 3)
+    env = dict(os.environ, PYTHONPATH=VERIF)
+    def finish(k, proc, outf, ch, killed):
+        outf.seek(0); done = set()
+        for line in outf.read().decode('utf-8', 'replace').splitlines():
+            try: r = json.loads(line)
+            except ValueError: continue
+            results.append(r); done.add(r['hid'])
+        outf.close()
+        for j in ch:
+            if j[1] not in done:
+                results.append(dict(hid=j[1], ok=False, wall=0.0, error='worker %s before finishing this job (exit %s)' % ('killed after exceeding its wall budget' if killed else 'ended', proc.returncode), tb=''))
+    while pending or running:
+        while pending and len(running) < nproc:
+            k, ch = pending.pop(0)
+            outf = tempfile.TemporaryFile()
+            proc = subprocess.Popen([sys.executable, '-m', 'vf.worker'], stdin=subprocess.PIPE, stdout=outf, stderr=subprocess.DEVNULL, cwd=VERIF, env=env)
+            proc.stdin.write(json.dumps(dict(jobs=[list(j) for j in ch])).encode()); proc.stdin.close()
+            running[k] = (proc, outf, ch, time.time())
+        time.sleep(0.05)
+        for k in list(running):
+            proc, outf, ch, t0 = running[k]
+            if proc.poll() is not None:
+                finish(k, proc, outf, ch, False); del running[k]
+            elif time.time() - t0 > budget(ch):
+                proc.kill(); proc.wait(); finish(k, proc, outf, ch, True); del running[k]
+    return results
+
+
 def known_keys(pid):
     """keys of recorded (unrepaired) findings for this property: harnesses exclude exactly these classes
     from the main run and re-confirm them in a separate 'known:<key>' job."""
@@ -90,10 +127,7 @@ def main(argv=None):
     if a.jobs <= 1 or len(jobs) == 1:
         results = [_worker(j) for j in jobs]
     else:
-        ctxm = multiprocessing.get_context('fork')
-        with ctxm.Pool(min(a.jobs, len(jobs)), maxtasksperchild=8) as pool:
-            for r in pool.imap_unordered(_worker, jobs, chunksize=1):
-                results.append(r)
+        results = run_in_subprocesses(jobs, a.jobs, timeout_ms)
     results.sort(key=lambda r: r['hid'])
     errors = [r for r in results if not r['ok']]
     failures = []; inconclusive = []
